@@ -10,6 +10,7 @@ import (
 
 	"github.com/ollama/ollama/api"
 	"github.com/ollama/ollama/envconfig"
+	"github.com/ollama/ollama/types/model"
 )
 
 // C03 clause 2 / C09 clause (a): effect ordering of the real PullModel / PushModel with all I/O
@@ -107,6 +108,20 @@ func vfSHA256(r io.Reader) (string, int64) {
 	return "sha256:0bad", 10
 }
 
+// what Manifests sees in the C12 harness (which runs the REAL deleteUnusedLayers): the one model of the
+// scenario, i.e. the manifest its name resolves to right now
+var vfCur *Manifest
+
+func vfManifestsPull(continueOnError bool) (map[model.Name]*Manifest, error) {
+	ms := map[model.Name]*Manifest{}
+	if vfCur != nil {
+		cp := *vfCur
+		cp.filepath = "/models/manifests/x"
+		ms[model.Name{Host: "registry.example", Namespace: "library", Model: "m", Tag: "latest"}] = &cp
+	}
+	return ms, nil
+}
+
 func vfGetBlobsPath(digest string) (string, error) { return "/models/blobs/" + digest, nil }
 
 func vfRemoveFile(name string) error {
@@ -125,6 +140,7 @@ func vfWriteFile(name string, data []byte, perm os.FileMode) error {
 	if !ok {
 		return errors.New("disk full")
 	}
+	vfCur = vfNew
 	return nil
 }
 func vfMarshal(v any) ([]byte, error)                   { return []byte("{}"), nil }
@@ -276,6 +292,7 @@ func VerifC12PullCrash(maxLayers int) {
 		present0[d], good0[d] = vfPresent[d], vfGood[d]
 	}
 	envconfig.NoPrune = func() bool { return false }
+	vfCur = vfOld
 	PullModel(context.Background(), "registry.example/library/m:latest", &registryOptions{}, func(r api.ProgressResponse) {})
 	verifReach("pull-returned")
 	cur := vfOld
